@@ -184,6 +184,11 @@ def run(prog: Program, col: Collector, tier: str, refs: Optional[Refs] = None, c
     ok = any(isinstance(n, ast.If) and "not in out_adj.inputs" in norm(n.test) for n in ac.body)
     col.check(ok, f"{ac.fq}::broadcast case", "when the adjoint does not depend on the concatenated dimension every part receives it whole",
               "the case where out_adj does not mention the part dimension is not handled", ac.loc())
+    from . import algebra
+    algebra.r_number_tensor_siblings(prog, col, refs, cat, "R11.6")
+    # adjoints in the (logaddexp, add) semiring accumulate with logaddexp from the zero -inf and divide with safesub (plates)
+    from . import numerics
+    numerics.run(prog, col, refs, cat, rule_log="R11.7", rule_safe="R11.8")
     return col
 
 
